@@ -280,6 +280,7 @@ func (e *Engine) havocObject(st *State, root types.Type, ref Term) {
 	for name, h := range st.heap {
 		if strings.HasPrefix(name, prefix) {
 			fresh := e.sym.Fresh("hobj", elemSort(h.Sort))
+			e.typeObj(fresh, name)
 			st.heap[name] = Store(h, ref, fresh)
 		}
 	}
@@ -445,7 +446,12 @@ func (e *Engine) applyContract(st *State, fr *Frame, site ssa.Instruction, calle
 	oldEpoch := st.epoch
 	oldNext := st.next
 	// frame
-	if ct.ModAll {
+	frameless := ct.NoFrame || (len(ct.Ensures) == 0 && len(ct.Modifies) == 0 && !ct.Pure)
+	if ct.ModAll || frameless {
+		// no frame promised (and none checked on the callee): everything may have changed
+		for _, a := range args {
+			st.escape(a)
+		}
 		e.havocAllHeap(st, "modifies *")
 	} else {
 		for _, m := range ct.Modifies {
